@@ -160,10 +160,26 @@ def strip_comments(src):
     return "".join(out)
 
 
-def audit_sources():
+def dep_closure(roots):
+    """The .v files (relative to coq/) that the given files depend on, via their Mk requires."""
+    seen, todo = set(), list(roots)
+    while todo:
+        f = todo.pop()
+        if f in seen or not (COQ / f).exists():
+            continue
+        seen.add(f)
+        src = strip_comments((COQ / f).read_text())
+        for m in re.finditer(r"From\s+Mk\s+Require\s+(.*?)\.(?:\s|$)", src, re.S):
+            for mod in m.group(1).split():
+                if mod not in ("Import", "Export"):
+                    todo.append(mod.replace(".", "/") + ".v")
+    return sorted(seen)
+
+
+def audit_sources(files=None):
     """No Admitted/Axiom/... anywhere; Variable/Hypothesis only inside a Section."""
     problems = []
-    for f in sorted(COQ.rglob("*.v")):
+    for f in (sorted(COQ.rglob("*.v")) if files is None else [COQ / x for x in files]):
         src = strip_comments(f.read_text())
         depth = 0
         for ln, line in enumerate(src.split("\n"), 1):
@@ -179,8 +195,9 @@ def audit_sources():
     return problems
 
 
-def coq_make():
-    """Full .vo build of the development (incremental), serialised by a lock."""
+def coq_make(targets=None):
+    """Full .vo build of the development (incremental), serialised by a lock.
+    targets: list of .vo paths relative to coq/ (default: everything)."""
     BUILD.mkdir(exist_ok=True)
     with open(BUILD / ".coq.lock", "w") as lk:
         fcntl.flock(lk, fcntl.LOCK_EX)
@@ -190,13 +207,16 @@ def coq_make():
         if not pf.exists() or pf.read_text() != proj or not (COQ / "Makefile").exists():
             pf.write_text(proj)
             run(["coq_makefile", "-f", "_CoqProject", "-o", "Makefile"], cwd=COQ, check=True)
-        p = run(["make", "-j%d" % JOBS], cwd=COQ, timeout=3000)
+        p = run(["make", "-j%d" % JOBS] + list(targets or []), cwd=COQ, timeout=3000)
         return p.returncode == 0, (p.stdout + p.stderr).decode(errors="replace")
 
 
 def proof_gate(ctx, extra_files=()):
     """Build everything, audit sources, re-check Properties/<id>.v and read Print Assumptions."""
-    ok, log = coq_make()
+    roots = ["Properties/%s.v" % ctx.prop, "Harness/%s.v" % ctx.prop] + list(extra_files)
+    roots = [r for r in roots if (COQ / r).exists()]
+    only = os.environ.get("VERIF_COQ_ONLY_DEPS") == "1"     # development aid; the registered commands build everything
+    ok, log = coq_make([r + "o" for r in roots] if only else None)
     gate = {"obligations": 0, "discharged": 0, "theorems": [], "assumptions": {}, "ok": True,
             "checker_cmd": "make -C coq (coq_makefile, full .vo) && coqc -Q coq Mk coq/Properties/%s.v  [Print Assumptions under every theorem]" % ctx.prop}
     propfile = COQ / "Properties" / ("%s.v" % ctx.prop)
@@ -204,7 +224,7 @@ def proof_gate(ctx, extra_files=()):
     thms = re.findall(r"^\s*(?:Theorem|Lemma|Example|Corollary)\s+([A-Za-z0-9_']+)", src, re.M)
     gate["theorems"] = thms
     gate["obligations"] = len(thms)
-    problems = audit_sources()
+    problems = audit_sources(dep_closure(roots) if only else None)
     if not ok:
         problems.append("make failed: " + log[-3000:])
     out = ""
@@ -300,7 +320,9 @@ def coq_show(ctx, harness_mod, term, name="show"):
 
 # ---------------- known findings ----------------
 def load_known(prop):
-    f = VERIF / "known_findings.json"
+    """Committed known findings of one property: known/<prop>.json = {"findings":[…], "fixed":[…]}
+    (known_findings.json is the merged index generated by harness/gen_manifest.py)."""
+    f = VERIF / "known" / ("%s.json" % prop)
     if not f.exists():
         return []
     data = json.loads(f.read_text())
